@@ -21,7 +21,9 @@ import (
 	"math"
 	"os"
 	"strings"
+	"strconv"
 	"time"
+	"unicode/utf16"
 
 	"verif/vh"
 
@@ -197,7 +199,11 @@ func implRoundtrip(pc int, js []byte) (res string, out []pdfcpu.Bookmark, pdf []
 
 // ---------------------------------------------------------------- forest generation
 
-var titlePool = []string{"A", "A", "B", "0", "C", "Ä", "日本語", "😀 x", "(paren)", "A b", "Kapitel 1", "é", "Z", "a", "~", "A!", " "}
+var titlePool = []string{"A", "A", "B", "0", "C", "Ä", "日本語", "😀 x", "(paren)", "A b", "Kapitel 1", "é", "Z", "a", "~", "A!", " ",
+	// Latin-1 only titles, among them "mojibake-shaped" ones: a character in U+00C2..U+00DF directly
+	// followed by one in U+00A1..U+00BF.  Written as one-byte (PDFDocEncoding) strings their bytes
+	// are valid UTF-8 and a UTF-8-first reader decodes them to different text.
+	"RÃ©sumÃ©", "CafÃ© Â§1", "Â©", "Ã¤Ã¶Ã¼", "©§¡¿ÿ", "Ð¡ Þ¿", "naïve façade"}
 
 // titles with a backslash: the text decoding applied to /Dest names (types.HexLiteralToString ->
 // Unescape) is not the identity on them; the model treats that decoding as the identity, so these
@@ -217,8 +223,16 @@ func genTitle(r *vh.Run, mode int) string {
 		// random unicode
 		n := 1 + r.Rand.Intn(8)
 		rs := make([]rune, n)
-		for i := range rs {
-			switch r.Rand.Intn(4) {
+		for i := 0; i < n; i++ {
+			switch r.Rand.Intn(6) {
+			case 4:
+				rs[i] = rune(0xa1 + r.Rand.Intn(0x5f)) // Latin-1 U+00A1..U+00FF
+			case 5:
+				rs[i] = rune(0xc2 + r.Rand.Intn(0x1e)) // U+00C2..U+00DF followed by U+00A1..U+00BF
+				if i+1 < n {
+					i++
+					rs[i] = rune(0xa1 + r.Rand.Intn(0x1f))
+				}
 			case 0:
 				rs[i] = rune(0x20 + r.Rand.Intn(0x5f))
 				if rs[i] == '\\' {
@@ -491,7 +505,111 @@ func optRef(d types.Dict, key string, base int) string {
 	return fmt.Sprint(ir.ObjectNumber.Value() - base)
 }
 
-func buildDump(pc int, bms []pdfcpu.Bookmark) string {
+func preorderTitles(bms []pdfcpu.Bookmark, out *[]string) {
+	for _, b := range bms {
+		*out = append(*out, b.Title)
+		preorderTitles(b.Kids, out)
+	}
+}
+
+// pdfUnescape: the harness' own reading of a PDF literal string body (ISO 32000-1 7.3.4.2),
+// independent of pdfcpu's types.Unescape.
+func pdfUnescape(s string) []byte {
+	var out []byte
+	for i := 0; i < len(s); i++ {
+		c := s[i]
+		if c != '\\' {
+			out = append(out, c)
+			continue
+		}
+		i++
+		if i >= len(s) {
+			break
+		}
+		switch c = s[i]; c {
+		case 'n':
+			out = append(out, 0x0a)
+		case 'r':
+			out = append(out, 0x0d)
+		case 't':
+			out = append(out, 0x09)
+		case 'b':
+			out = append(out, 0x08)
+		case 'f':
+			out = append(out, 0x0c)
+		case 0x0a:
+		case 0x0d:
+			if i+1 < len(s) && s[i+1] == 0x0a {
+				i++
+			}
+		default:
+			if c >= '0' && c <= '7' {
+				v := 0
+				k := 0
+				for k < 3 && i < len(s) && s[i] >= '0' && s[i] <= '7' {
+					v = v*8 + int(s[i]-'0')
+					i++
+					k++
+				}
+				i--
+				out = append(out, byte(v))
+			} else {
+				out = append(out, c)
+			}
+		}
+	}
+	return out
+}
+
+// titleBytesProblem: what import writes as /Title must be a text string in UTF-16BE with BOM (the
+// encoder the model assumes: identity on text, EscapedUTF16String as in C13) that decodes - by the
+// harness' own decoder - to exactly the imported title.  "" = fine.
+func titleBytesProblem(o types.Object, want string) (class, detail string) {
+	var bb []byte
+	switch t := o.(type) {
+	case types.StringLiteral:
+		bb = pdfUnescape(t.Value())
+	case types.HexLiteral:
+		b, err := t.Bytes()
+		if err != nil {
+			return "import-title-not-utf16be", "bad hex literal"
+		}
+		bb = b
+	default:
+		return "import-title-not-utf16be", fmt.Sprintf("/Title is %T", o)
+	}
+	if len(bb) < 2 || bb[0] != 0xfe || bb[1] != 0xff || len(bb)%2 != 0 {
+		return "import-title-not-utf16be", "title=" + vh.Hex([]byte(want)) + " written=" + vh.Hex(bb)
+	}
+	u := make([]uint16, 0, len(bb)/2)
+	for i := 2; i+1 < len(bb); i += 2 {
+		u = append(u, uint16(bb[i])<<8|uint16(bb[i+1]))
+	}
+	if got := string(utf16.Decode(u)); got != want {
+		return "import-title-bytes-wrong-text", "title=" + vh.Hex([]byte(want)) + " written=" + vh.Hex(bb)
+	}
+	return "", ""
+}
+
+// buildCase: K case on the outline graph import builds + O on the raw /Title bytes.
+func buildCase(r *vh.Run, pc int, f []pdfcpu.Bookmark) {
+	var probs [][2]string
+	res := guard(func() string { return buildDump(pc, f, &probs) })
+	r.Case("build", []string{vh.Int(int64(pc)), forestStr(f)}, res)
+	if strings.HasPrefix(res, "first=") {
+		js, _ := json.Marshal(pdfcpu.BookmarkTree{Bookmarks: f})
+		if len(probs) == 0 {
+			r.OracleOK()
+		} else {
+			r.OracleFail(probs[0][0], map[string]any{"pages": pc, "json": string(js)}, probs[0][1])
+		}
+	}
+}
+
+func buildDump(pc int, bms []pdfcpu.Bookmark, probs *[][2]string) string {
+	var want []string
+	preorderTitles(bms, &want)
+	nItem := 0
 	ctx, err := api.ReadValidateAndOptimize(bytes.NewReader(makePDF(pc, "", nil)), model.NewDefaultConfiguration())
 	if err != nil {
 		return "ctxerr"
@@ -528,6 +646,12 @@ func buildDump(pc int, bms []pdfcpu.Bookmark) string {
 			}
 			parts = append(parts, fmt.Sprintf("D %d %s", nr-base, vh.Int(int64(p))))
 		case types.Dict:
+			if nItem < len(want) {
+				if cl, det := titleBytesProblem(o["Title"], want[nItem]); cl != "" {
+					*probs = append(*probs, [2]string{cl, det})
+				}
+			}
+			nItem++
 			t := "-"
 			if s, err := model.Text(o["Title"]); err == nil {
 				t = "t" + vh.Hex([]byte(s))
@@ -904,6 +1028,114 @@ func readCases(r *vh.Run) {
 	}
 }
 
+// ---------------------------------------------------------------- documents NOT made by pdfcpu's import
+
+// rawOutlinePDF writes a pc-page PDF whose outline is hand-written by the harness: items numbered
+// in preorder from 3+2pc+1, /Title as UTF-16BE with BOM (hex string, or literal string with every
+// byte octal-escaped), direct destinations [page /Fit], /First /Last /Next /Prev /Parent /Count /C /F.
+func rawOutlinePDF(pc int, f []pdfcpu.Bookmark, octal bool) []byte {
+	start := 3 + 2*pc
+	next := start + 1
+	var extra []rawObj
+	var lay func(l []pdfcpu.Bookmark, parent int) (first, last, total int)
+	lay = func(l []pdfcpu.Bookmark, parent int) (int, int, int) {
+		ids := make([]int, len(l))
+		bodies := make([]string, len(l))
+		total := 0
+		for i, b := range l {
+			ids[i] = next
+			next++
+			var sb strings.Builder
+			sb.WriteString("<< /Title ")
+			if octal {
+				sb.WriteString("(\\376\\377")
+				for _, u := range utf16be(b.Title) {
+					fmt.Fprintf(&sb, "\\%03o\\%03o", u>>8, u&0xff)
+				}
+				sb.WriteString(")")
+			} else {
+				sb.WriteString("<FEFF")
+				for _, u := range utf16be(b.Title) {
+					fmt.Fprintf(&sb, "%04X", u)
+				}
+				sb.WriteString(">")
+			}
+			fmt.Fprintf(&sb, " /Parent %d 0 R /Dest [%d 0 R /Fit]", parent, 3+2*(b.PageFrom-1))
+			if len(b.Kids) > 0 {
+				fk, lk, c := lay(b.Kids, ids[i])
+				fmt.Fprintf(&sb, " /First %d 0 R /Last %d 0 R /Count %d", fk, lk, c)
+				total += c
+			}
+			total++
+			if b.Color != nil {
+				ff := func(x float32) string { return strconv.FormatFloat(float64(x), 'f', -1, 32) }
+				fmt.Fprintf(&sb, " /C [%s %s %s]", ff(b.Color.R), ff(b.Color.G), ff(b.Color.B))
+			}
+			if b.Style() > 0 {
+				fmt.Fprintf(&sb, " /F %d", b.Style())
+			}
+			bodies[i] = sb.String()
+		}
+		for i := range l {
+			body := bodies[i]
+			if i > 0 {
+				body += fmt.Sprintf(" /Prev %d 0 R", ids[i-1])
+			}
+			if i+1 < len(l) {
+				body += fmt.Sprintf(" /Next %d 0 R", ids[i+1])
+			}
+			extra = append(extra, rawObj{ids[i], body + " >>"})
+		}
+		return ids[0], ids[len(l)-1], total
+	}
+	first, last, total := lay(f, start)
+	extra = append(extra, rawObj{start, fmt.Sprintf("<< /Type /Outlines /First %d 0 R /Last %d 0 R /Count %d >>", first, last, total)})
+	return makePDF(pc, fmt.Sprintf("/Outlines %d 0 R", start), extra)
+}
+
+// rawStart: the literal property on a document whose outline pdfcpu did not write:
+// E1 = export(doc) must be the hand-written forest; import E1 (replace) into doc; E2 = export; E2 == E1.
+func rawStart(r *vh.Run, pc int, f []pdfcpu.Bookmark, octal bool) {
+	pdf := rawOutlinePDF(pc, f, octal)
+	js, _ := json.Marshal(pdfcpu.BookmarkTree{Bookmarks: f})
+	input := map[string]any{"pages": pc, "json": string(js), "stage": "raw-outline", "octal": octal, "pdf": vh.Hex(pdf)}
+	r.Count("rawstart")
+	res := guard(func() string {
+		e1, j1, err := exportJSON(pdf)
+		if err != nil {
+			return "raw-outline-export-failed\t" + vh.Hex([]byte(err.Error()))
+		}
+		if forestStr(e1) != forestStr(f) {
+			return "raw-outline-export-mismatch\twant=" + forestStr(f) + " got=" + forestStr(e1)
+		}
+		var w bytes.Buffer
+		if err := api.ImportBookmarks(bytes.NewReader(pdf), bytes.NewReader(j1), &w, true, nil); err != nil {
+			cl := "export-not-reimportable"
+			if nameRefDecodeError(importErrClass(err)) {
+				cl = "dup-title-name-ref-decode"
+			}
+			return cl + "\t" + vh.Hex([]byte(err.Error()))
+		}
+		e2, _, err := exportJSON(w.Bytes())
+		if err != nil {
+			return "imported-not-exportable\t" + vh.Hex([]byte(err.Error()))
+		}
+		if forestStr(e2) != forestStr(e1) {
+			return mismatchClass(e1, e2) + "\te1=" + forestStr(e1) + " e2=" + forestStr(e2)
+		}
+		return ""
+	})
+	switch {
+	case res == "":
+		r.OracleOK()
+	case strings.HasPrefix(res, "PANIC"):
+		r.OracleFail("panic-import-export", input, res)
+	default:
+		p := strings.SplitN(res, "\t", 2)
+		r.OracleFail(p[0], input, p[1])
+	}
+}
+
 // hang: the looping goroutine cannot be stopped and keeps allocating; the failing input is
 // recorded, so finish the run at once.
 func hang(r *vh.Run) {
@@ -967,12 +1199,12 @@ func main() {
 		if oneRoundtrip(r, 6, f, "fixed", false, true) {
 			exportImportExport(r, 6, f)
 		}
-		r.Case("build", []string{vh.Int(6), forestStr(f)}, guard(func() string { return buildDump(6, f) }))
+		buildCase(r, 6, f)
 	}
 	// recursion limit of import (default 100): nesting 100 is accepted, 101 is not
 	for _, n := range []int{99, 100, 101} {
 		f := deepChain(n)
-		r.Case("build", []string{vh.Int(3), forestStr(f)}, guard(func() string { return buildDump(3, f) }))
+		buildCase(r, 3, f)
 		oneRoundtrip(r, 3, f, "deep", n <= 100, true)
 	}
 	// titles with backslashes: oracle only
@@ -990,11 +1222,33 @@ func main() {
 		f := genForest(r, pc, 0, maxDepth, mode, 1)
 		ok := oneRoundtrip(r, pc, f, fmt.Sprintf("mode%d", mode), mode == 0 || mode == 3, mode != 3)
 		if i%2 == 0 && mode != 3 {
-			r.Case("build", []string{vh.Int(int64(pc)), forestStr(f)}, guard(func() string { return buildDump(pc, f) }))
+			buildCase(r, pc, f)
 		}
 		if ok && i%2 == 1 {
 			exportImportExport(r, pc, f)
 		}
+		if mode == 0 && i%3 == 0 {
+			rawStart(r, pc, f, i%2 == 0)
+		}
+	}
+	// Latin-1 / mojibake-shaped titles on documents with a hand-written outline
+	lat := func(ts ...string) []pdfcpu.Bookmark {
+		var l []pdfcpu.Bookmark
+		for i, t := range ts {
+			l = append(l, pdfcpu.Bookmark{Title: t, PageFrom: 1 + i/2})
+		}
+		return l
+	}
+	for i, f := range [][]pdfcpu.Bookmark{
+		lat("RÃ©sumÃ©", "CafÃ© Â§1", "Â©"),
+		lat("©§¡¿ÿ", "Ã¤Ã¶Ã¼", "naïve façade", "日本語", "😀 x", "plain"),
+		{{Title: "Ð¡ Þ¿", PageFrom: 1, Bold: true, Kids: lat("Â©", "é")}},
+	} {
+		rawStart(r, 4, f, i%2 == 0)
+		if oneRoundtrip(r, 4, f, "latin1-fixed", true, true) {
+			exportImportExport(r, 4, f)
+		}
+		buildCase(r, 4, f)
 	}
 	readCases(r)
 }
